@@ -74,6 +74,20 @@ CLAIMED = {
          'and the registry free/untrack/validate structure.'),
    note='Undecided: address reuse after free (runtime), behaviour of C callers, callbacks invoked by the library with its own context. Trusted base: ' + TRUSTED,
    design='5/C31'),
+ 'C02': dict(
+   technique='MIR guarded-effect dominance + failing-edge obligations on comparison/verification call sites + def-use of the verified bytes',
+   text=('Decides the verdict plumbing for manifest-store tampering: hashed-URI match only on the true outcome of the hash comparison (false/missing/undeclared reach Failure logs, undeclared also Err); '
+         'claimSignature.validated/insideValidity only for Ok(vi) with vi.validated, both other arms log claimSignature.mismatch; CertificateInfo only after validator.validate = Ok on sign1.signature/tbs; '
+         'ingredient.manifest.validated only after the manifest box hash matched, mismatch is a Failure, every found ingredient goes through verify_claim; COSE verification is fed the claim original bytes.'),
+   note='Undecided: that the box hashes / COSE signature cover every byte. Trusted base: ' + TRUSTED,
+   design='5/C02'),
+ 'C05': dict(
+   technique='full path enumeration of return classes with guard literals + must-pass-through between builder new()/build() + who-may-call table',
+   text=('Decides the trust decision structure: EndEntity only via the allow-list lookup on the certificate hash, NoCheck only in passthrough, System only after verify_cert on the store fed from trust_anchor_ders(), '
+         'User only when trust_anchors_only() is false and verify_cert succeeded on the store fed from user_trust_anchor_ders(); both stores receive X509_STRICT and the shared verify parameters; NO_CHECK_TIME only without signing time; '
+         'trusted/untrusted logs only on the matching edge and only for Verifier::VerifyTrustPolicy; pass-through policies only in tabled functions; settings wiring of user/system anchors.'),
+   note='Undecided: chain building and EKU evaluation inside OpenSSL; the rust_native backend is not compiled in this build configuration. Trusted base: ' + TRUSTED,
+   design='5/C05'),
 }
 
 NA_REASONS = {
